@@ -10,6 +10,9 @@ Layout (plain JSON-able dict):
     {"subnets": [[has_bbmd, n_ordinary], ...],      1..4 subnets, subnet i is 10.0.<i+1>.0/24
      "fds":     [i, ...],                           foreign device k registers with the BBMD of subnet i
      "fdnets":  [n, ...],                           optional: foreign subnet of device k (default: one of its own)
+     "fdwire":  [None | i, ...],                    optional: device k sits on the wire of subnet i (10.0.<i+1>.<20+k>) instead
+                                                    of a foreign subnet: it shares an IP subnet with that subnet's BBMD and
+                                                    ordinary nodes while it is registered with the BBMD of subnet fds[k]
      "bdt":     "full" | {"<i>": [j, ...]},         peers listed by the BBMD of subnet i (it always lists itself)
      "mask":    "host" | "subnet" | {"<j>": ...},   how BBMD j is entered in every table: /32 (two-hop) or /24 (one-hop)
      "phase":   0.25}                               virtual start time
@@ -142,6 +145,42 @@ def npdu_payload(n):
     return bytes([0x01, 0x20, 0xFF, 0xFF, 0x00, 0xFF, 0x10, 0x08, 0x0A, n >> 8, n & 0xFF, 0x1A, n >> 8, n & 0xFF])
 
 
+def layout_topology(layout):
+    """The reference's view of a layout, from the layout description alone (no stack is built): used to decide whether
+    a layout is inside the statement before it is run.  BipSystem builds the same description from the nodes it
+    really created and refuses to run if the two differ."""
+    lay = norm_layout(layout)
+    subnets, bbmd_of = {}, {}
+    for i, (has_bbmd, n_ord) in enumerate(lay["subnets"]):
+        key = "s%d" % i
+        subnets[key] = []
+        if has_bbmd:
+            subnets[key].append("b%d" % i)
+            bbmd_of[key] = "b%d" % i
+        subnets[key].extend("o%d%s" % (i, "ab"[k]) for k in range(n_ord))
+    bbmds = [bbmd_of["s%d" % i] for i in range(len(lay["subnets"])) if "s%d" % i in bbmd_of]
+    bdt = {}
+    for b in bbmds:
+        if lay["bdt"] == "full":
+            peers = [p for p in bbmds if p != b]
+        else:
+            peers = ["b%d" % j for j in lay["bdt"].get(b[1:], [])]
+        bdt[b] = [b] + peers
+    fdwire = lay.get("fdwire") or [None] * len(lay["fds"])
+    wire_of = {"f%d" % k: "s%d" % int(w) for k, w in enumerate(fdwire) if w is not None}
+    m = lay["mask"]
+    onehop = [b for b in bbmds if (m.get(b[1:], "host") if isinstance(m, dict) else m) != "host"]
+    return bbmdref.Topology(subnets, bbmd_of, bdt, ["f%d" % k for k in range(len(lay["fds"]))], wire_of=wire_of, onehop=onehop)
+
+
+def layout_fdt(layout):
+    """{bbmd: set(fd)} when every foreign device of the layout is registered with its home BBMD"""
+    out = {}
+    for k, home in enumerate(layout.get("fds") or []):
+        out.setdefault("b%d" % home, set()).add("f%d" % k)
+    return out
+
+
 class BipSystem(object):
     def __init__(self, layout):
         lay = self.layout = norm_layout(layout)
@@ -174,8 +213,17 @@ class BipSystem(object):
                 self._add(nid, "ord", "10.0.%d.%d" % (i + 1, 3 + k), net, key)
                 subnets[key].append(nid)
         fdnets = lay.get("fdnets") or list(range(len(lay["fds"])))
+        fdwire = lay.get("fdwire") or [None] * len(lay["fds"])
+        self.wire_of = {}               # fd id -> subnet key, for the devices that sit on a subnet of the B/IP network
         per_net = {}
         for k, home in enumerate(lay["fds"]):
+            if fdwire[k] is not None:
+                w = int(fdwire[k])
+                key = "s%d" % w
+                self._add("f%d" % k, "fd", "10.0.%d.%d" % (w + 1, 20 + k), self.nets[key], key)
+                self.life["f%d" % k] = bbmdref.Lifetime()
+                self.wire_of["f%d" % k] = key
+                continue
             n = fdnets[k]
             key = "x%d" % n
             net = self.nets.get(key) or self._net(key, "10.1.%d" % (n + 1))
@@ -197,7 +245,10 @@ class BipSystem(object):
             self.bdt[b] = [b] + peers
             for p in self.bdt[b]:
                 self.nodes[b].bip.add_peer(self._bdt_entry(p))
-        self.topo = bbmdref.Topology(subnets, bbmd_of, self.bdt, [n for n in self.order if self.nodes[n].kind == "fd"])
+        self.topo = bbmdref.Topology(subnets, bbmd_of, self.bdt, [n for n in self.order if self.nodes[n].kind == "fd"],
+                                     wire_of=self.wire_of, onehop=[b for b in bbmds if self.mask_of(b) != "host"])
+        if self.topo.describe() != layout_topology(lay).describe():
+            raise RuntimeError("bipsys: the system built differs from the description of layout %r" % (lay,))
         self.by_tuple = {n.tuple: n for n in self.nodes.values()}
         vclock.settle()
 
